@@ -172,6 +172,27 @@ pub fn set_connection_counter(db: &Database, dbs: &Arc<Databases>) -> Response {
     return set_key_value(CONNECTIONS_KEY.to_string(), value, -1, db, &dbs);
 }
 
+/// A session selected the database `name`: it is counted there once, and no longer in the
+/// database it had selected before
+pub fn move_connection(
+    previous_db: Option<String>,
+    name: &String,
+    dbs_map: &HashMap<String, Database>,
+    dbs: &Arc<Databases>,
+) {
+    if previous_db.as_ref() == Some(name) {
+        return; // Same database selected again, still one session
+    }
+    if let Some(old_db) = previous_db.and_then(|old_name| dbs_map.get(&old_name)) {
+        old_db.dec_connections();
+        set_connection_counter(old_db, &dbs);
+    }
+    if let Some(db) = dbs_map.get(name) {
+        db.inc_connections(); //Increment the number of connections
+        set_connection_counter(db, &dbs);
+    }
+}
+
 pub fn set_key_value(
     key: String,
     value: String,
